@@ -5,7 +5,6 @@ Property theorems over Model/Layout.lean (helper lemmas private).
   compose_flatten      `_compose` inverts `_createLayout` for every tree (types, serials, locators, grids, child order)
   flatten_injective    the layout determines the tree
   compose_sound        whatever `_compose` builds re-flattens to the rows it was built from (load twice; save-of-load)
-  flatten_compose      corollary in the form used by the harness
   indexInData_spec, param_lookup_own   every object is paired with its own row of the per-class datasets
   unpack_pack_locations   all sequences of the four locator kinds, all multi-index lengths
   grid_dedup_lookup    de-duplicated grid table gives every object its own grid parameters back
@@ -81,13 +80,6 @@ theorem flatten_injective (t u : Tree) (h : flattenT t = flattenT u) : t = u := 
   rw [h] at h1
   rw [h1] at h2
   exact Option.some.inj h2
-
-/-- load twice / save the loaded reactor: re-flattening a composed layout gives the rows back -/
-theorem flatten_compose (rows : List Row) (t : Tree) (h : compose rows = some t)
-    (hr : ∃ u, rows = flattenT u) : flattenT t = rows := by
-  obtain ⟨u, rfl⟩ := hr
-  rw [compose_flatten] at h
-  cases h; rfl
 
 private theorem parse_sound : ∀ (fuel : Nat),
     (∀ rows t rest, parseT fuel rows = some (t, rest) → rows = flattenT t ++ rest) ∧
